@@ -69,6 +69,7 @@ func NewShortDeckCards() []string {
 func ShuffleCards(cards []string) []string {
 
 	rand.Seed(time.Now().UnixNano())
+	verifReseed()
 
 	rand.Shuffle(len(cards), func(i, j int) {
 		cards[i], cards[j] = cards[j], cards[i]
